@@ -48,7 +48,7 @@ check(
 )
 check(
     "C18",
-    ["Dialogue", "DialogueTrace"],
+    ["Dialogue", "DialogueTrace", "Streams"],
     "TLA+ model of Question/ChoiceQuestion/ConfirmationQuestion dialogues (A: ask -> prompt -> read -> validate -> retry; P: operators over observations) checked by TLC incl. Termination under weak fairness; every TLC dialogue replayed on the real classes under a read/write budget; random multi-question sessions decided by DialogueTrace.tla",
     "TLC enumerates every dialogue of the bounded family (choice lists <= 2-3 entries incl. numeric-looking/spaced/case-differing ones, single/multi-select, defaults, attempt limits {unlimited,1,2,3}, scripts <= 2-3 lines over an adversarial answer alphabet, each ending in end-of-input; plain questions with validator; confirmations over 3 patterns x 14 answers; non-interactive) and checks the P-invariants plus Termination (liveness, weak fairness, no state constraint); a deliberately broken variant (RetryOnAbort) must produce the lasso, which guards against a vacuous liveness check; the real classes reproduce each of the 86 892 (quick) / 1.46 M (thorough) behaviours; 2 500 / 40 000 random sessions of 1-4 questions on one input are decided by TLC on the observed outcome, read count, error lines and stream bytes.",
     "Trusted: TLC, Json, the BudgetIn/BudgetOut wrappers (BaseException budgets), observation projection. stty/hidden/autocomplete path not exercised (subprocess stubbed); attempt limit 0 and non-ASCII answers outside. 'one error' = one stderr line in the error style per rejected entry.",
@@ -88,7 +88,7 @@ check(
 )
 check(
     "C03",
-    ["Resolver", "ResolverTrace"],
+    ["Resolver", "ResolverTrace", "Config", "Suggest"],
     "TLA+ model of DefaultResolver on command trees (P: Lead / Path / Allowed / OutcomeOK and the alias, trailing-option, separator and hidden laws; A: Leading, Descend per token, Pick first-parsable default, Final) checked by TLC; every tree x line replayed on ConsoleApplication.resolve_command; simulated full-family cases and random trees decided by ResolverTrace.tla",
     "TLC enumerates 288 trees (skeleton of depth 3 with aliases; kinds plain/default/anonymous, enabled/disabled, strict/lenient varied) x every line of a path prefix up to 2 (quick) / 3 (thorough) tokens over names, aliases and an unknown word x 8 suffixes (argument, flag, flag + name, --opt=v + name, '--' tails) and checks that the outcome is the one the statement names plus the metamorphic laws; the real resolver reproduces the model's outcome and per-command parsability on every case (argv and string form alternating); 1500/40000 simulated cases over the full attribute family and 600/12000 random trees (depth <= 3, fan-out <= 3) with random lines are decided by TLC on the observed selection.",
     "Trusted: TLC, Json, build_app/observe projection (command identity -> node id, message of CannotResolveCommandException -> undefined token). Sibling names/aliases unique; several default sub-commands: any is allowed; strict commands declare no arguments, lenient ones accept everything.",
